@@ -83,6 +83,8 @@ def _case(draw):
         ctl = ["f", "last", [], []]
     if kind == "advance" and draw(st.integers(0, 2)) != 0:
         scan = draw(progs.gap_scans(table))  # advance across gaps of a non-contiguous scan
+    elif draw(st.sampled_from([False, False, False, True])):
+        scan = draw(progs.gap_scans(table))  # '+'-lists, sometimes written in a non-ascending order
     pos = draw(st.integers(0, len(comps)))
     if kind.startswith("last") and kind != "last_bare":
         pos = len(comps)  # a 'last() ->' component comes last (quantifier of C01/C13)
